@@ -52,13 +52,15 @@ func propC17(r *Run) {
 		if r.Choose("bad-policy", 5) == 0 {
 			bad := []string{"", "score", "score >= ", "score > 2", "score => 2", "score >= -1", "score >= 5", "score >= two", "strength >= 2", "score >= 2 extra", "entropy >= 1.5", "time >= 99999999999999999999", "SCORE >= 2", "score>=2", "score >= 0x2", "entropy >= 0b101", "time >= 1_000", "score >= 0o2", "score >= +2", "entropy >= 1e1"}[r.Choose("bad-cond", 20)]
 			w.fs.Put("/etc/whawty/p.yaml", []byte(cfg.YAML()), 0o600)
-			_, err := NewStore("/etc/whawty/p.yaml", "", "zxcvbn", bad, "")
+			// whatever else is configured, an unparsable policy stops the agent from starting
+			upg := []string{"", "local", "https://master.example/api/update", "http://10.0.0.1:8080/api/update"}[r.Choose("bad-policy-upgrades", 4)]
+			_, err := NewStore("/etc/whawty/p.yaml", upg, "zxcvbn", bad, "")
 			r.Logf("policy condition %q -> %v", bad, err)
 			r.Nontrivial("bad|" + bad)
 			if err == nil {
 				r.Fail("policy/unparsable-accepted", "policy condition %q was accepted; an unparsable policy must stop the agent from starting", bad)
 			}
-			if _, err := NewStore("/etc/whawty/p.yaml", "", "nosuchpolicy", "score >= 1", ""); err == nil {
+			if _, err := NewStore("/etc/whawty/p.yaml", upg, "nosuchpolicy", "score >= 1", ""); err == nil {
 				r.Fail("policy/unknown-type-accepted", "unknown policy type accepted")
 			}
 			return
@@ -122,6 +124,16 @@ func propC17(r *Run) {
 		// accounts that predate the policy: their (possibly weak) passwords were stored when no
 		// policy was configured; re-submitting such a password under the policy must be refused
 		def17 := cfg.SetMap()[cfg.Default]
+		upg17 := []string{"", "local"}[r.Choose("c17-upgrades", 2)]
+		if upg17 == "local" {
+			// with local hash upgrades the legacy records sit under an outdated parameter set: a
+			// login would rewrite them - which is a write of that password and needs the policy too
+			for _, s := range cfg.Sets {
+				if s.ID != cfg.Default {
+					def17 = s
+				}
+			}
+		}
 		for i, u := range []string{"legacy1", "legacy2"} {
 			pw := policyPwPool[r.Choose("legacy-pw", len(policyPwPool))]
 			salt := make([]byte, def17.SaltLen())
@@ -130,7 +142,7 @@ func propC17(r *Run) {
 			stored[u] = pw
 			legacy[u] = true
 		}
-		a, err := w.bootAgentExisting(cfg, cfgPath, "", "zxcvbn", cond, "")
+		a, err := w.bootAgentExisting(cfg, cfgPath, upg17, "zxcvbn", cond, "")
 		if err != nil {
 			r.Fail("harness/boot", "%v", err)
 		}
@@ -196,7 +208,29 @@ func propC17(r *Run) {
 				ok = c.OK
 			}
 			after := w.fs.Snapshot(cfg.BaseDir)
-			judge(path, op, u, pw, ok, len(diffNoTmp(before, after)) > 0, semanticOK)
+			// with local upgrades a login that is part of the request (session login, old-password
+			// check) may rewrite the logged-in user's record under the default set for the SAME
+			// password: that is not an effect of the refused request - but it is a write of that
+			// password, which needs the policy as well
+			var realDiff []string
+			for _, dd := range diffNoTmp(before, after) {
+				pth := strings.SplitN(dd, " ", 2)[1]
+				x := strings.TrimSuffix(strings.TrimSuffix(strings.TrimPrefix(pth, cfg.BaseDir+"/"), ".user"), ".admin")
+				if e, okf := after[pth]; okf && upg17 == "local" && !(ok && x == u) {
+					line := strings.SplitN(e.Data, "\n", 2)[0]
+					defS := cfg.SetMap()[cfg.Default]
+					if rec, perr := ParseStrict(line); perr == nil && uint(rec.ParamID) == cfg.Default {
+						if dg := defS.Digest(stored[x], rec.Salt); dg != nil && string(dg) == string(rec.Digest) {
+							if !passes(x, stored[x]) {
+								r.Fail("policy/failing-password-stored/upgrade", "policy %q: a login of %s during %s %s rewrote the record (hash upgrade) with password %s, which fails the policy", cond, x, path, op, simrt.Q(stored[x]))
+							}
+							continue
+						}
+					}
+				}
+				realDiff = append(realDiff, dd)
+			}
+			judge(path, op, u, pw, ok, len(realDiff) > 0, semanticOK)
 			if ok {
 				stored[u] = pw
 				delete(legacy, u) // written under the policy now
@@ -208,11 +242,15 @@ func propC17(r *Run) {
 			if !passes(u, pw) && !legacy[u] {
 				r.Fail("policy/failing-password-stored/final", "%s has password %s which fails %q", u, simrt.Q(pw), cond)
 			}
+			_, before, _ := w.fileOf(cfg.BaseDir, u)
 			c := &Call{Kind: "authenticate", Via: "agent", Agent: a.idx, User: u, PW: pw}
 			w.addClient([]*Call{c})
 			w.settle(nil)
 			if !c.OK {
 				r.FailOther("C01", "verdict/authenticate", "stored password of %s does not authenticate: %s", u, c.Err)
+			}
+			if _, after, _ := w.fileOf(cfg.BaseDir, u); after != before && !passes(u, pw) {
+				r.Fail("policy/failing-password-stored/upgrade", "policy %q: a login of %s rewrote the record (hash upgrade) with password %s, which fails the policy", cond, u, simrt.Q(pw))
 			}
 		}
 		r.Steps += n
